@@ -4,9 +4,12 @@ import (
 	"encoding/json"
 	"fmt"
 	"os"
+	"reflect"
 	"sync"
 	"testing"
 	"time"
+
+	"github.com/datastax/go-cassandra-native-protocol/primitive"
 )
 
 // TestRaceSupplement is the supplementary, NON-deterministic part of C18 (DESIGN.md §5 C18): the same
@@ -41,13 +44,11 @@ func TestRaceSupplement(t *testing.T) {
 		for k := 0; k < M; k++ {
 			all = append(all, c18GenOps(T, sc, k, 1+T.Draw("nops", 3)))
 		}
-		ref := make([][]shareRes, M)
-		for k := range all {
-			ref[k] = make([]shareRes, len(all[k]))
-			for j, op := range all[k] {
-				ref[k][j] = runOp(op)
-			}
-		}
+		// Concurrent phase FIRST, on freshly created codec instances and — for the struct-mapped UDT
+		// calls — on a struct type that did not exist before this iteration: lazily filled caches are
+		// then still cold when the goroutines start, which is when unsynchronised initialisation races.
+		// The sequential reference is computed afterwards (results must agree either way).
+		fresh := freshStructOps(sc, i, M)
 		got := make([][]shareRes, M)
 		var wg sync.WaitGroup
 		start := make(chan struct{})
@@ -58,6 +59,7 @@ func TestRaceSupplement(t *testing.T) {
 			go func() {
 				defer wg.Done()
 				<-start
+				_ = runOp(fresh[k])
 				for rep := 0; rep < 3; rep++ {
 					for j, op := range all[k] {
 						got[k][j] = runOp(op)
@@ -67,6 +69,13 @@ func TestRaceSupplement(t *testing.T) {
 		}
 		close(start)
 		wg.Wait()
+		ref := make([][]shareRes, M)
+		for k := range all {
+			ref[k] = make([]shareRes, len(all[k]))
+			for j, op := range all[k] {
+				ref[k][j] = runOp(op)
+			}
+		}
 		for k := range all {
 			for j, op := range all[k] {
 				calls += 3
@@ -79,4 +88,34 @@ func TestRaceSupplement(t *testing.T) {
 	}
 	out, _ := json.Marshal(map[string]interface{}{"iterations": iters, "calls": calls, "mismatches": mismatches})
 	_ = os.WriteFile(job.Out, out, 0644)
+}
+
+// freshStructOps returns, for each of m goroutines, one call that decodes a UDT value into a struct type
+// created for this iteration with reflect.StructOf (a type the library has never seen), all through the
+// same shared UDT codec.
+func freshStructOps(sc *sharedCodecs, iter, m int) []shareOp {
+	ops := make([]shareOp, m)
+	if sc.udt == nil {
+		for k := range ops {
+			ops[k] = shareOp{name: "noop", run: func() (interface{}, error) { return nil, nil }}
+		}
+		return ops
+	}
+	// exported fields with unique names per iteration make a new type identity
+	st := reflect.StructOf([]reflect.StructField{
+		{Name: fmt.Sprintf("A%d", iter), Type: reflect.TypeOf(int32(0)), Tag: reflect.StructTag(`cassandra:"a"`)},
+		{Name: fmt.Sprintf("B%d", iter), Type: reflect.TypeOf(""), Tag: reflect.StructTag(`cassandra:"b"`)},
+	})
+	enc, err := sc.udt.Encode(map[string]interface{}{"a": int32(iter), "b": "x"}, primitive.ProtocolVersion4)
+	for k := range ops {
+		ops[k] = shareOp{name: "datacodec/UDT->fresh struct", run: func() (interface{}, error) {
+			if err != nil {
+				return nil, err
+			}
+			dest := reflect.New(st).Interface()
+			_, e := sc.udt.Decode(enc, dest, primitive.ProtocolVersion4)
+			return nil, e
+		}}
+	}
+	return ops
 }
